@@ -613,7 +613,7 @@ def check_c19(tier, only=None):
     directory that is removed afterwards; the same seeds are executed by six drivers and the traces are diffed."""
     seed = int(os.environ.get("VERIF_SEED", "1"))
     t0 = time.time()
-    n = 500 if tier == "quick" else 60000
+    n = 500 if tier == "quick" else 20000
     scratch = tempfile.mkdtemp(prefix="verif-c19-")
     problems, reported, notes = [], [], []
     res = {}
